@@ -59,6 +59,7 @@ static inline myth_thread_t myth_sleep_stack_pop_th(myth_sleep_stack_t * s) {
 static inline int myth_mutex_unlock_body(myth_mutex_t * mutex);
 
 MYTH_CTX_CALLBACK void myth_block_on_queue_cb(void *arg1,void *arg2,void *arg3) {
+  MYTH_VERIF_POINT(MYTH_VP_CTX_CALLBACK, arg1, arg2, MYTH_VP_CTX_CB_BLOCK_ON_QUEUE_CB);
   myth_sleep_queue_t * q = arg1;
   myth_thread_t cur = arg2;
   myth_mutex_t * m = arg3;
@@ -110,6 +111,7 @@ static inline void myth_block_on_queue(myth_sleep_queue_t * q,
 
 
 MYTH_CTX_CALLBACK void myth_block_on_stack_cb(void *arg1,void *arg2,void *arg3) {
+  MYTH_VERIF_POINT(MYTH_VP_CTX_CALLBACK, arg1, arg2, MYTH_VP_CTX_CB_BLOCK_ON_STACK_CB);
   myth_sleep_stack_t * s = arg1;
   myth_thread_t cur = arg2;
   myth_mutex_t * m = arg3;
@@ -1109,6 +1111,7 @@ static inline int myth_uncond_destroy_body(myth_uncond_t * u) {
 // __attribute__((used,noinline,sysv_abi)) 
 MYTH_CTX_CALLBACK
 void myth_uncond_wait_cb(void *arg1,void *arg2,void *arg3) {
+  MYTH_VERIF_POINT(MYTH_VP_CTX_CALLBACK, arg1, arg2, MYTH_VP_CTX_CB_UNCOND_WAIT_CB);
   myth_uncond_t * u = arg1;
   myth_thread_t cur = arg2;
   MYTH_VERIF_POINT(MYTH_VP_BLOCK_CB_BEGIN, u, cur, 0);
